@@ -129,6 +129,9 @@ type c19DCase struct {
 	Via      string // which header name carries the lines: Forwarded | X-Zitadel-Forwarded | both
 	ReqPath  string
 	XFP      bool // X-Forwarded-Proto: http present
+	// Outage: history on one provider - another tenant's metadata request is served first, then the signing-key lookup of the
+	// observed metadata request fails this way (a served document must still carry THIS request's derived issuer)
+	Outage string `json:",omitempty"`
 }
 
 func c19Derive(c c19DCase) (fnOut string, mdEntity string, err error) {
@@ -160,6 +163,10 @@ func c19Derive(c c19DCase) (fnOut string, mdEntity string, err error) {
 		r.Header.Set("X-Forwarded-Host", "xfh.example")
 	}
 	fnOut = w.Provider.IssuerFromRequest(r)
+	if c.Outage != "" {
+		w.Do(world.NewRequest("GET", "earlier-tenant.example", w.Cfg.MetadataPath(), nil, "", nil))
+		w.Store.FaultNext("GetResponseSigningKey", 1, c.Outage)
+	}
 	// observed on the served metadata as well
 	mr := httptest.NewRequest("GET", "https://"+c.Host+w.Cfg.MetadataPath(), nil)
 	mr.Host = c.Host
@@ -237,7 +244,7 @@ func init() { Registry["C19"] = runC19 }
 
 func runC19(ctx Ctx) int {
 	run := ev.NewRun("C19")
-	run.Rule = "A: full product of issuer strings = scheme(10) x separator(5) x userinfo(4) x host(10) x port(5) x path(7) x query(8) x fragment(4) x insecure(2) against the real StaticIssuer factory (and NewProvider for every accepted string), judged by the RFC 3986 appendix-B component regex; A2: every string with <= 1 component off the canonical issuer x 6 prefixes x 9 suffixes of blanks / TAB / LF / CRLF / NBSP / EM SPACE / NUL / VT; B2: every sequence of <= 3 requests over 4 forwarding-header placements on one provider (3 issuer modes); B: full product of configured path(10, incl. percent-escapes, //-prefixed and scheme-like paths) x insecure(2) x request Host(3) x 15 Forwarded header shapes x 3 issuer modes x header placement(3) x request path(2) x X-Forwarded-Proto(2), observed on IssuerFromRequest and on the entityID of the served metadata, judged with an own RFC 7239 reading"
+	run.Rule = "A: full product of issuer strings = scheme(10) x separator(5) x userinfo(4) x host(10) x port(5) x path(7) x query(8) x fragment(4) x insecure(2) against the real StaticIssuer factory (and NewProvider for every accepted string), judged by the RFC 3986 appendix-B component regex; A2: every string with <= 1 component off the canonical issuer x 6 prefixes x 9 suffixes of blanks / TAB / LF / CRLF / NBSP / EM SPACE / NUL / VT; B2: every sequence of <= 3 requests over 4 forwarding-header placements on one provider (3 issuer modes); B: full product of configured path(10, incl. percent-escapes, //-prefixed and scheme-like paths) x insecure(2) x request Host(3) x 15 Forwarded header shapes x 3 issuer modes x header placement(3) x request path(2) x X-Forwarded-Proto(2), plus 1 296 cases observed after another tenant's metadata request while the signing-key lookup fails (4 kinds), observed on IssuerFromRequest and on the entityID of the served metadata, judged with an own RFC 7239 reading"
 	run.Assume = []string{"a bare '?' or '#' with nothing after it is not counted as query / fragment", "for syntactically malformed Forwarded values either host choice is accepted; the structure (scheme and path never from the request) is always enforced"}
 	if ctx.Replay != "" {
 		var rp c19Replay
@@ -468,9 +475,23 @@ func runC19(ctx Ctx) int {
 						for _, via := range []string{"Forwarded", "X-Zitadel-Forwarded", "both"} {
 							for _, rp := range []string{"/x/y", "/"} {
 								for _, xfp := range []bool{false, true} {
-									dcases = append(dcases, c19DCase{path, ins, host, h, mode, via, rp, xfp})
+									dcases = append(dcases, c19DCase{path, ins, host, h, mode, via, rp, xfp, ""})
 								}
 							}
+						}
+					}
+				}
+			}
+		}
+	}
+	// ... and the same observation after another tenant's metadata request, with the signing-key lookup failing
+	for _, path := range []string{"", "/p", "p", "/a/b/", "/t%2Fx/saml", "//saml/v2"} {
+		for _, ins := range []bool{false, true} {
+			for _, host := range []string{"idp.example", "idp.example:8443", "[::1]:8080"} {
+				for _, h := range []int{0, 1, 7} {
+					for _, mode := range []string{"host", "forwarded", "custom"} {
+						for _, out := range []string{world.FaultError, world.FaultCtxDeadline, world.FaultNilRecord, world.FaultNoKey} {
+							dcases = append(dcases, c19DCase{Path: path, Insecure: ins, Host: host, Hdr: h, Mode: mode, Via: "both", ReqPath: "/", Outage: out})
 						}
 					}
 				}
@@ -480,11 +501,22 @@ func runC19(ctx Ctx) int {
 	_, c2 := parallel(len(dcases), deadline, func(i int) {
 		c := dcases[i]
 		class, clauses, detail := c19JudgeDerive(c)
+		if c.Outage != "" {
+			class = "after-another-tenant+key-outage:" + class
+			if detail["entityID"] == "" {
+				class += "/refused"
+			} else {
+				class += "/served"
+			}
+		}
 		run.Evaluations.Add(1)
 		run.AddStates(1)
 		run.Outcome("derive:" + class)
 		for _, cl := range clauses {
 			labels := []string{"mode=" + c.Mode, "header=" + c19Headers[c.Hdr].Name, "via=" + c.Via}
+			if c.Outage != "" {
+				labels = append(labels, "history=metadata for another tenant ; signing-key lookup fails ("+c.Outage+") ; metadata")
+			}
 			cc := c
 			run.Violate(cl, "issuerFromForwardedOrHost", labels, detail, c19Replay{Derive: &cc})
 		}
